@@ -298,6 +298,15 @@ def run_case(kind, params, ctx):
         return
     if kind == "arg_types":
         import bits.base58 as b58
+        # text (str) arguments to the boolean classifier: it answers False or True, it does not raise - whatever characters the text holds
+        for txt in ("3QJmnh", "", "1A1zP1eP5QGefi2DMPTfTL5SLmv7DivfNa", "3QJ\u00e9nh", "\uff11A1zP1", "\U0001f600", "3QJmnh\n", "\udcff", "0OIl"):
+            ctx.count("argtypes.calls")
+            try:
+                r_ = b58.is_base58check(txt)
+                if not isinstance(r_, bool):
+                    ctx.violation("is_base58check-nonbool/str-argument", f"is_base58check({txt!r}) = {r_!r}")
+            except Exception as e:
+                ctx.violation(f"is_base58check-raises/str-argument/{type(e).__name__}", f"is_base58check({txt!r}) raised {type(e).__name__}: {e}")
         for _ in range(60):
             data = rand_bytes(rng, rng.randrange(0, 40))
             for typ in (bytearray, memoryview):
